@@ -143,9 +143,21 @@ def check(run, prog, tier):
                 tgt = None
                 if n.get("k") == "Asg" and field_of(n["L"], cur):
                     cv = const_val(n["R"])
+                    r0 = strip(n["R"])
                     if n.get("op") == "=" and cv is not None:
                         bound = max(bound, cv)
                         wdesc.append("%s: = %d" % (f.name, cv))
+                    elif n.get("op") == "=" and r0.get("k") == "Bin" and r0.get("op") == "%" and (const_val(r0["R"]) or 0) > 0 and \
+                            (strip(r0["L"]).get("t") or "").startswith("unsigned") is False and any(field_of(x, cur) for x in walk(r0["L"])):
+                        # cur = (cur + k) % K with cur >= 0: the result is at most K - 1 (C's % keeps the sign of the left
+                        # operand, and the left operand is built from the non-negative cursor and constants)
+                        l0 = strip(r0["L"])
+                        nonneg = l0.get("k") == "Bin" and l0.get("op") == "+" and (const_val(l0["R"]) or 0) >= 0 and field_of(l0["L"], cur)
+                        if nonneg:
+                            bound = max(bound, const_val(r0["R"]) - 1)
+                            wdesc.append("%s:%s: %% %d" % (f.name, n.get("l"), const_val(r0["R"])))
+                        else:
+                            unknown.append("%s:%s: %s" % (f.name, n.get("l"), show(n)))
                     else:
                         unknown.append("%s:%s: %s" % (f.name, n.get("l"), show(n)))
                 elif n.get("k") == "Un" and n.get("op") == "++" and field_of(n["e"], cur):
